@@ -37,4 +37,5 @@ flows! {
     c31_two(a: u32, b: u32) -> (out: (Vec<u32>, Vec<u32>));
     c34_counter(r: u32, w: u32) -> (ack: u32, read: (u32, usize));
     c34_sum(r: u32, w: u32) -> (ack: u32, read: (u32, u32));
+    c34_yield_atomic(r: u32, w: u32) -> (ack: u32, read: (u32, u32));
 }
